@@ -8,6 +8,7 @@
 package authority
 
 import (
+	"context"
 	"encoding/hex"
 	"fmt"
 	"math/big"
@@ -22,10 +23,13 @@ import (
 	sdkmath "cosmossdk.io/math"
 	sdk "github.com/cosmos/cosmos-sdk/types"
 	"github.com/cosmos/cosmos-sdk/types/bech32"
+	"github.com/cosmos/cosmos-sdk/types/module"
 	authtypes "github.com/cosmos/cosmos-sdk/x/auth/types"
 	banktypes "github.com/cosmos/cosmos-sdk/x/bank/types"
+	gogogrpc "github.com/cosmos/gogoproto/grpc"
 	gogoproto "github.com/cosmos/gogoproto/proto"
 	"github.com/ethereum/go-ethereum/common"
+	"google.golang.org/grpc"
 	"google.golang.org/protobuf/proto"
 	"google.golang.org/protobuf/reflect/protoreflect"
 
@@ -131,6 +135,83 @@ func Discover(w *world.W) []KindInfo {
 	return out
 }
 
+// service is the implementation a module registered for one message type: the method's generated handler and the server
+// object it is bound to.
+type service struct {
+	srv    any
+	method grpc.MethodDesc
+}
+
+// recorder is a module.Configurator that records the message services instead of installing them on a router.
+type recorder struct {
+	msg   recServer
+	query nopServer
+}
+
+type recServer struct{ byURL map[string]service }
+
+type nopServer struct{}
+
+func (nopServer) RegisterService(*grpc.ServiceDesc, interface{}) {}
+
+var errProbe = fmt.Errorf("probe")
+
+func (r recServer) RegisterService(sd *grpc.ServiceDesc, ss interface{}) {
+	for _, md := range sd.Methods {
+		// the request type of the method, found the way baseapp's MsgServiceRouter finds it: the generated handler hands a
+		// fresh request to the decoder before it touches the server
+		var url string
+		_, _ = md.Handler(nil, context.Background(), func(i interface{}) error {
+			if m, ok := i.(sdk.Msg); ok {
+				url = sdk.MsgTypeURL(m)
+			}
+			return errProbe
+		}, nil)
+		if url != "" {
+			r.byURL[url] = service{srv: ss, method: md}
+		}
+	}
+}
+
+func (r *recorder) RegisterService(sd *grpc.ServiceDesc, ss interface{}) {
+	r.msg.RegisterService(sd, ss)
+}
+func (r *recorder) Error() error                 { return nil }
+func (r *recorder) MsgServer() gogogrpc.Server   { return r.msg }
+func (r *recorder) QueryServer() gogogrpc.Server { return r.query }
+func (r *recorder) RegisterMigration(string, uint64, module.MigrationHandler) error {
+	return nil
+}
+
+// Services runs the application's own service registration (app.RegisterServices: every module's RegisterServices plus
+// the crosschain router message server) against a recording configurator: type url -> registered implementation.
+func Services(w *world.W) map[string]service {
+	r := &recorder{msg: recServer{byURL: map[string]service{}}}
+	must(w.App.RegisterServices(r))
+	return r.msg.byURL
+}
+
+// HandleDirect invokes the registered service implementation for msg directly: no router, hence no stateless validation
+// (other modules, in-process callers and the repository's keeper tests reach the handlers this way); same per-message
+// atomicity and panic recovery as world.Handle.
+func (a *Adapter) HandleDirect(ctx sdk.Context, msg sdk.Msg) error {
+	s, ok := a.services[sdk.MsgTypeURL(msg)]
+	if !ok {
+		return fmt.Errorf("no service implementation registered for %T", msg)
+	}
+	return world.Atomic(ctx, func(c sdk.Context) error {
+		_, err := s.method.Handler(s.srv, c, func(i interface{}) error {
+			dst, src := reflect.ValueOf(i), reflect.ValueOf(msg)
+			if dst.Type() != src.Type() {
+				return fmt.Errorf("request type %T, message %T", i, msg)
+			}
+			dst.Elem().Set(src.Elem())
+			return nil
+		}, nil)
+		return err
+	})
+}
+
 type Consts struct {
 	MaxApplied int      `json:"MaxApplied"`
 	Kind       []string `json:"Kind"`
@@ -145,7 +226,9 @@ type Adapter struct {
 	Kinds map[string]KindInfo
 	Order []string
 	K     int // number of pre-built targets per kind
-	gov   sdk.AccAddress
+	// services: type url -> service implementation registered by the application (direct delivery, via "server")
+	services map[string]service
+	gov      sdk.AccAddress
 	// world
 	baseABT    map[string]uint64
 	baseOracle map[string]int
@@ -173,6 +256,7 @@ func New(t *testing.T, c Consts) *Adapter {
 		a.Kinds[k.Kind] = k
 		a.Order = append(a.Order, k.Kind)
 	}
+	a.services = Services(w)
 	ctx := w.Ctx
 	cdc := w.App.AppCodec()
 	for _, k := range a.Kinds {
@@ -243,6 +327,10 @@ func (a *Adapter) authority(class string) string {
 		return strings.ToUpper(a.gov.String())
 	case "gov-hex":
 		return common.BytesToAddress(a.gov).Hex()
+	case "user-hex": // the 0x form of an ordinary account
+		return common.BytesToAddress(a.W.Key("c16/user").AccAddress()).Hex()
+	case "garbage": // no address in any encoding
+		return "not an address"
 	case "gov-otherprefix":
 		other := "cosmos"
 		if sdk.GetConfig().GetBech32AccountAddrPrefix() == other {
@@ -275,9 +363,11 @@ func bytesOf(b byte, n int) []byte {
 	return out
 }
 
-func resetAlias(i int) string       { return fmt.Sprintf("verifrm%d", i) }
-func resetURL(i int) string         { return fmt.Sprintf("/verif.c16.Reset%d", i) }
-func resetPrecompile(i int) string  { return strings.ToLower(world.DetExt(fmt.Sprintf("c16/precompile/%d", i))) }
+func resetAlias(i int) string { return fmt.Sprintf("verifrm%d", i) }
+func resetURL(i int) string   { return fmt.Sprintf("/verif.c16.Reset%d", i) }
+func resetPrecompile(i int) string {
+	return strings.ToLower(world.DetExt(fmt.Sprintf("c16/precompile/%d", i)))
+}
 func resetStoreKey(i, j int) []byte { return []byte(fmt.Sprintf("verif/c16/rs/%d/%d", i, j)) }
 
 func oracleAddr(chain string, i int) string {
@@ -446,7 +536,57 @@ func hexByte(n int64) string {
 }
 
 // build constructs the message of kind k with the given authority string; n = current count of k
-func (a *Adapter) build(ctx sdk.Context, k KindInfo, auth, pay, old string, n int64) sdk.Msg {
+// entry is one [cell, old, new] entry of a raw store update as the specification states it (symbolic values)
+type entry struct{ Cell, Old, New string }
+
+func entries(op graph.Op) []entry {
+	var out []entry
+	l, _ := op["ent"].([]any)
+	for _, x := range l {
+		m, _ := x.(map[string]any)
+		c, _ := m["cell"].(string)
+		o, _ := m["old"].(string)
+		n, _ := m["new"].(string)
+		out = append(out, entry{c, o, n})
+	}
+	return out
+}
+
+// holds: every stated old value equals the value of its cell when the entry is reached (harness-side twin of Holds in
+// Authority.tla, used only to decide whether the multistore must be untouched)
+func holds(ent []entry) bool {
+	cur := map[string]string{"a": "cur", "b": "cur"}
+	for _, e := range ent {
+		if cur[e.Cell] != e.Old {
+			return false
+		}
+		cur[e.Cell] = e.New
+	}
+	return true
+}
+
+// storeMsg maps the symbolic entries to a MsgUpdateStore: cells a/b -> keys[0]/keys[1], cur/next -> the given hex values,
+// tmp -> ee, other -> ff
+func storeMsg(auth string, ent []entry, keys [2][]byte, cur, next string, badSpaceLast bool) *fxgovtypes.MsgUpdateStore {
+	val := map[string]string{"cur": cur, "next": next, "tmp": "ee", "other": "ff"}
+	cell := map[string][]byte{"a": keys[0], "b": keys[1]}
+	var us []fxgovtypes.UpdateStore
+	for _, e := range ent {
+		key, ok1 := cell[e.Cell]
+		o, ok2 := val[e.Old]
+		n, ok3 := val[e.New]
+		if !ok1 || !ok2 || !ok3 {
+			panic(fmt.Sprintf("store entry %+v", e))
+		}
+		us = append(us, fxgovtypes.UpdateStore{Space: storeSpace, Key: hex.EncodeToString(key), OldValue: o, Value: n})
+	}
+	if badSpaceLast && len(us) > 0 {
+		us[len(us)-1].Space = "nosuchstore" // after the earlier entries have been written
+	}
+	return &fxgovtypes.MsgUpdateStore{Authority: auth, UpdateStores: us}
+}
+
+func (a *Adapter) build(ctx sdk.Context, k KindInfo, auth, pay string, ent []entry, n int64) sdk.Msg {
 	w := a.W
 	valid := pay == "valid"
 	if pay == "reset" { // n = number of reset targets already consumed; the form acts on target n+1
@@ -467,15 +607,7 @@ func (a *Adapter) build(ctx sdk.Context, k KindInfo, auth, pay, old string, n in
 			p.DisablePrecompiles = keep
 			return &fxgovtypes.MsgUpdateSwitchParams{Authority: auth, Params: p}
 		case urlGStore:
-			e1 := fxgovtypes.UpdateStore{Space: storeSpace, Key: hex.EncodeToString(resetStoreKey(i, 1)), OldValue: "01", Value: "00"}
-			e2 := fxgovtypes.UpdateStore{Space: storeSpace, Key: hex.EncodeToString(resetStoreKey(i, 2)), OldValue: "01", Value: "00"}
-			switch old {
-			case "mismatch-first":
-				e1.OldValue = "ff"
-			case "mismatch-second":
-				e2.OldValue = "ff"
-			}
-			return &fxgovtypes.MsgUpdateStore{Authority: auth, UpdateStores: []fxgovtypes.UpdateStore{e1, e2}}
+			return storeMsg(auth, ent, [2][]byte{resetStoreKey(i, 1), resetStoreKey(i, 2)}, "01", "00", false)
 		}
 		panic("no reset form for " + k.URL)
 	}
@@ -538,19 +670,7 @@ func (a *Adapter) build(ctx sdk.Context, k KindInfo, auth, pay, old string, n in
 		}
 		return &fxevmtypes.MsgCallContract{Authority: auth, ContractAddress: target.Hex(), Data: hex.EncodeToString(data)}
 	case urlGStore:
-		cur, next := hexByte(n), hexByte(n+1)
-		e1 := fxgovtypes.UpdateStore{Space: storeSpace, Key: hex.EncodeToString(storeKeyN(1)), OldValue: cur, Value: next}
-		e2 := fxgovtypes.UpdateStore{Space: storeSpace, Key: hex.EncodeToString(storeKeyN(2)), OldValue: cur, Value: next}
-		switch old {
-		case "mismatch-first":
-			e1.OldValue = "ff"
-		case "mismatch-second":
-			e2.OldValue = "ff" // the first entry matches and is written by the handler before the second one fails
-		}
-		if !valid {
-			e2.Space = "nosuchstore" // again after the first entry has been written
-		}
-		return &fxgovtypes.MsgUpdateStore{Authority: auth, UpdateStores: []fxgovtypes.UpdateStore{e1, e2}}
+		return storeMsg(auth, ent, [2][]byte{storeKeyN(1), storeKeyN(2)}, hexByte(n), hexByte(n+1), !valid)
 	case urlGSwitch:
 		var list []string
 		for i := int64(1); i <= n+1; i++ {
@@ -590,14 +710,22 @@ func (a *Adapter) Apply(ctx sdk.Context, op graph.Op) (sdk.Context, string) {
 	if !ok {
 		panic("kind not discovered on this application: " + op.Str("kind"))
 	}
-	auth, pay, old := op.Str("auth"), op.Str("pay"), op.Str("old")
+	auth, pay, via, ent := op.Str("auth"), op.Str("pay"), op.Str("via"), entries(op)
 	n, _ := a.count(ctx, k).(int64)
 	if pay == "reset" {
 		n, _ = a.cleared(ctx, k).(int64)
 	}
-	msg := a.build(ctx, k, a.authority(auth), pay, old, n)
+	msg := a.build(ctx, k, a.authority(auth), pay, ent, n)
 	before := a.W.DumpHash(ctx)
-	err := a.W.Handle(ctx, msg)
+	var err error
+	switch via {
+	case "router":
+		err = a.W.Handle(ctx, msg)
+	case "server":
+		err = a.HandleDirect(ctx, msg)
+	default:
+		panic("delivery " + via)
+	}
 	res := "ok"
 	if err != nil {
 		res = "rej"
@@ -606,7 +734,7 @@ func (a *Adapter) Apply(ctx sdk.Context, op graph.Op) (sdk.Context, string) {
 		}
 	}
 	// real-state oracle: whatever the property says must not take effect leaves the complete multistore untouched
-	mustBeClean := res == "rej" || auth != "gov" || (k.Store && old != "match")
+	mustBeClean := res == "rej" || auth != "gov" || (k.Store && !holds(ent))
 	if mustBeClean && a.W.DumpHash(ctx) != before {
 		if os.Getenv("VERIF_DEBUG") != "" {
 			fmt.Printf("DEBUG DIRTY %v (res=%s)\n", op, res)
